@@ -441,7 +441,18 @@ fn subsets_reference(p: &SubPlan) -> SubRef {
             }
             // leave-one-out attribution of item identifiers to assignments (rust only; used by oracle C)
             if rust {
-                let full: BTreeSet<String> = find_block(&blocks, &name).map(|b| b.item_keys().iter().map(|k| proj::key_ident(k)).collect()).unwrap_or_default();
+                // multiset of item identifiers (two items may carry the same identifier: a top-level
+                // type and the derived name of another type's anonymous member)
+                let count = |b: Option<&ModBlock>| -> BTreeMap<String, usize> {
+                    let mut m = BTreeMap::new();
+                    if let Some(b) = b {
+                        for k in b.item_keys() {
+                            *m.entry(proj::key_ident(&k)).or_insert(0) += 1;
+                        }
+                    }
+                    m
+                };
+                let full = count(find_block(&blocks, &name));
                 for ai in 0..p.set.modules[mi].assigns.len() {
                     let mut s2 = p.set.clone();
                     let removed = s2.modules[mi].assigns.remove(ai);
@@ -450,8 +461,8 @@ fn subsets_reference(p: &SubPlan) -> SubRef {
                         continue;
                     }
                     let b2 = proj::modules_of(&o2.generated, rust).unwrap_or_default();
-                    let less: BTreeSet<String> = find_block(&b2, &name).map(|b| b.item_keys().iter().map(|k| proj::key_ident(k)).collect()).unwrap_or_default();
-                    attr.insert(removed.name.clone(), full.difference(&less).cloned().collect());
+                    let less = count(find_block(&b2, &name));
+                    attr.insert(removed.name.clone(), full.iter().filter(|(k, n)| less.get(*k).copied().unwrap_or(0) < **n).map(|(k, _)| k.clone()).collect());
                 }
             }
         }
